@@ -238,3 +238,83 @@ func c16PrefixSuffixOverlap(p *Prog) *RuleResult {
 	r.Floor(2)
 	return r
 }
+
+// C16/R8 unrepresentable-identifier check before a symbol is created from source text.
+//
+// With charset=ascii on a target without \u{...} escapes an identifier containing a code point
+// above U+FFFF cannot be printed; the printer panics ("Cannot encode identifier"). The parser
+// turns that into an ordinary error with checkForUnrepresentableIdentifier, which must therefore
+// see every name that is taken from the source and ends up being printed as an identifier.
+// Decided here for the two shapes that can be judged locally:
+//   (a) (*parser).newSymbol called with the lexer's current identifier text (p.lexer.Identifier)
+//       is dominated by a check of the same text (declareSymbol contains one), unless an equality
+//       test has pinned the text to a constant;
+//   (b) a label symbol (ast.SymbolLabel) — labels are printed verbatim and are created from a name
+//       that no other pass checks — is dominated by a check of its name.
+func c16UnrepresentableNames(p *Prog) *RuleResult {
+	r := NewRule("C16/R8 unrepresentable-name-check", "a symbol created directly from the lexer's identifier text, and every label symbol, is first passed to checkForUnrepresentableIdentifier (otherwise a non-BMP name reaches the printer and panics on targets without \\u{...} escapes under charset=ascii)")
+	ap := p.ByPath[modPath+"/internal/ast"]
+	labelKind := int64(-1)
+	if ap != nil {
+		if v, ok := constsOfType(ap.Types, "SymbolKind")["SymbolLabel"]; ok {
+			labelKind = v
+		}
+	}
+	if !r.Anchor("ast.SymbolLabel", labelKind >= 0) {
+		return r
+	}
+	for _, fn := range p.ModuleFuncs() {
+		if pkgPathOf(fn) != modPath+"/internal/js_parser" {
+			continue
+		}
+		var checks []*ssa.Call
+		eachInstr(fn, func(b *ssa.BasicBlock, in ssa.Instruction) {
+			if c, ok := in.(*ssa.Call); ok && FuncNameOf(c) == "js_parser.(*parser).checkForUnrepresentableIdentifier" {
+				checks = append(checks, c)
+			}
+		})
+		k := 0
+		eachInstr(fn, func(b *ssa.BasicBlock, in ssa.Instruction) {
+			c, ok := in.(*ssa.Call)
+			if !ok || FuncNameOf(c) != "js_parser.(*parser).newSymbol" || len(c.Call.Args) != 3 {
+				return
+			}
+			name := c.Call.Args[2]
+			why := ""
+			if kv, ok := constInt(c.Call.Args[1]); ok && kv == labelKind {
+				why = "a label"
+			} else {
+				// the lexer's identifier text, read directly (loads and field selections only)
+				root, path := purePath(name)
+				_ = root
+				if len(path) >= 2 && path[len(path)-1] == "String" && path[len(path)-2] == "Identifier" {
+					why = "the lexer's current identifier"
+				}
+			}
+			if why == "" {
+				return
+			}
+			k++
+			r.Instances++
+			key := fmt.Sprintf("%s newSymbol #%d (%s)", FuncName(fn), k, why)
+			for _, ch := range checks {
+				if (ch.Call.Args[2] == name || sameDatum(ch.Call.Args[2], name)) && (ch.Block() == b || ch.Block().Dominates(b)) {
+					r.OK(key, true, "checkForUnrepresentableIdentifier is called on the same name first")
+					return
+				}
+			}
+			// pinned to a constant by an equality test?
+			for _, f := range factsAt(b) {
+				if bo, ok := f.Cond.(*ssa.BinOp); ok && ((bo.Op == token.EQL && f.True) || (bo.Op == token.NEQ && !f.True)) {
+					if _, isC := constString(bo.Y); isC && (bo.X == name || sameDatum(bo.X, name)) {
+						r.OK(key, true, "the text is known to equal a constant here")
+						return
+					}
+				}
+			}
+			r.Fail(key, p.Pos(c.Pos()), "a symbol is created from "+why+" without checkForUnrepresentableIdentifier: with charset=ascii on a target without \\u{...} escapes a non-BMP character in this name reaches the printer, which panics with 'Cannot encode identifier'")
+		})
+	}
+	r.Floor(2)
+	return r
+}
